@@ -15,6 +15,18 @@ CHECKS = {
                      "emit_cmd_stream_header are translated from /repo on every run and proved equal to the model; "
                      "create_driver_payload/build_config_word are tied by a byte-for-byte correspondence run.",
                 note=TB + "; struct.pack/ctypes modelled; accelerator facts in Driver.spec_table"),
+    "C01": dict(cat="other", ref="7/C01", technique="executable Coq semantics of the command stream (hw/NpuExec.v, extracted) run on the compiled model vs TFLite reference kernels on the source model; scalar scaling lemmas",
+                text="Partial. Whole-network equivalence for all networks and inputs is not proved. What exists: an executable Gallina semantics "
+                     "of DMA, convolution, depthwise convolution and max/average pooling on byte memory that consumes exactly what the output "
+                     "file stores (command words decoded by hw/Npu.v, weight streams through the reference-decoder model and the "
+                     "brick-traversal model of C07, 10-byte scale records, zero points, rounding mode, clamps); it is extracted and run on "
+                     "the command streams of compiled generated networks (conv / depthwise / fully connected / pooling chains, int8 and "
+                     "uint8, one and two cores, all memory modes) with random inputs, and the outputs are compared bit for bit (one step for "
+                     "padded average pools) with a transcription of the TFLite reference kernels evaluated on the SOURCE model. Coq lemmas: "
+                     "natural rounding = round-half-up division, clamp range. Elementwise, table-based, resize and softmax operators are "
+                     "not executed (their parameters are covered by C09/C19/C10/C06).",
+                note=TB + "; the datapath semantics in hw/NpuExec.v and tools/refnet.py (reference kernels) are transcriptions, trusted; "
+                     "sampled networks and inputs"),
     "C02": dict(cat="translation_validation", ref="7/C02", technique="Coq-proved validator (check_bounds_sound) run on decoded command streams of real compilations",
                 text="Theorem check_bounds_sound (Coq): if the extracted checker accepts a decoded stream, every element address of "
                      "IFM/IFM2/OFM (through tiles, strides, NHCWB16 bricks) and every weight/scale/LUT/SHRAM/DMA range of every "
@@ -44,6 +56,16 @@ CHECKS = {
                      "(greedy_zero_size_refuted witness); round_up is additionally translated from the source.",
                 note=TB + "; hand models tied by correspondence (0 differences on ~9.5k quick / 322k thorough cases); HillClimb theorems "
                      "assume sum(size+align) <= 2^63; Linear modelled with one tensor per range; verify_allocation not modelled"),
+    "C06": dict(cat="proof", ref="7/C06", technique="Coq invariant proof of register-elision transparency for all emitter call histories (decoder of hw/Npu.v on the emitter model's words) + masking/field/framing/guard theorems; field-to-register mapping by an independent per-register oracle on random op lists and every compiled stream",
+                text="elision_transparent (+ _at_every_op, _any_split): for EVERY sequence of emitter calls the decoder recovers at each "
+                     "operation exactly the un-elided last-written register file, for both register machines; emitter facts (DMA split, one "
+                     "bank) are regenerated from the source; no_truncation, field_fits, stream_wellformed (exactly one STOP, last; waits "
+                     "directly precede their operation), alignment_checks_complete. Which emitter call each NpuOperation field goes to is "
+                     "NOT proved: an independent oracle written from the register documentation judges every decoded register of random "
+                     "legal op lists (all op kinds, layouts, tiles, 1-2 cores) and of every compiled stream against the captured "
+                     "NpuOperation list.",
+                note=TB + "; hand model of the emitter tied word for word with the real CommandStreamEmitter; open finding: out-of-range "
+                     "fields are masked silently (out_of_range_rejected_refuted)"),
     "C09": dict(cat="proof", ref="7/C09", technique="Coq theorems over quantise_scale / reduced_quantise_scale / quantise_pooling_scale translated from the source every run (gen_*_eq lemmas) + correspondence for the float step, the elementwise triples and the register call sites",
                 text="quantise_scale_accurate(_Q): for every positive dyadic scale in range the pair has 2^30<=q<=2^31, 0<=shift<=63 and "
                      "relative error <= 2^-31; quantise_scale_degrades; quantise_scale_eq_tflite (same rational as TFLite "
